@@ -407,7 +407,7 @@ pub fn checks() -> Vec<CheckDef> {
         "blind-sign",
         "cases = (N, key, message over edge/random scalars, one of {honest request, one wire atom of the request replaced (shift/random/zero/neighbour), C<->T swapped, challenge from another transcript, other key, atom replaced + challenge re-derived, commitment moved by delta*Y_i with the response moved together (relation kept for another commitment) or oppositely}); moved request kept => Some, value == the moved commitment, signature verifies on m+delta*e_i and not on m; oracle: honest => Some, blind-signable value == commitment atom of the request == independent Pedersen value, blind_sign+unblind verifies (library and reference pairing check) on the message and on no single-coordinate change; tampered => library verdict == independent Schnorr evaluation on the wire atoms (false by construction); non-trivial = honest with N>=2 and an edge entry, or any tampered case; distinct by (N, key, tamper label)",
         &["honest", "moved-request/relation-kept", "moved-request/relation-broken"],
-        (1200, 50_000),
+        (1200, 150_000),
         strategy,
         oracle,
     )]
